@@ -132,6 +132,11 @@ func (mdb *MonitoredDatabase) convertToCacheOptions(options SearchOptions) cache
 		UseFuzzy:       options.UseFuzzy,
 		FuzzyThreshold: options.FuzzyThreshold,
 		UseNLP:         options.UseNLP,
+
+		TopTermsCap:     options.TopTermsCap,
+		AllPlatforms:    options.AllPlatforms,
+		Platforms:       options.Platforms,
+		NoCrossPlatform: options.NoCrossPlatform,
 	}
 }
 
